@@ -226,7 +226,7 @@ func structEdit(r *hx.Rand, h *helloJ) string {
 	other := func() extJ {
 		return extJ{IsSNI: true, SNI: []nameEntryJ{{0, hex.EncodeToString([]byte(randName(r)))}}}
 	}
-	switch k := r.Intn(13); {
+	switch k := r.Intn(15); {
 	case k == 0 && sni >= 0: // second server_name extension with another name, after the first
 		h.Exts = append(h.Exts, other())
 		return "dup-sni-after"
@@ -284,6 +284,24 @@ func structEdit(r *hx.Rand, h *helloJ) string {
 		h.Exts = append(append(append([]extJ{}, h.Exts[:at]...), extJ{Typ: []int{21, 65000, 0xfe0d, 65535}[r.Intn(4)], Body: body}), h.Exts[at:]...)
 		h.HasExts = true
 		return "big-unknown-ext"
+	case k == 13 && sni >= 0: // damage BEHIND a complete server_name extension, all outer lengths consistent:
+		// the extension block ends in a dangling extension header, or in an extension whose length runs past it
+		if sni != 0 && r.Chance(1, 2) { // make server_name the first extension half of the time
+			h.Exts[0], h.Exts[sni] = h.Exts[sni], h.Exts[0]
+		}
+		switch r.Intn(3) {
+		case 0:
+			h.ExtTail = r.Bytes(r.Range(1, 3))
+			return "ext-tail-dangling-header"
+		case 1:
+			body := r.Bytes(r.Intn(6))
+			n := len(body) + r.Range(1, 300)
+			h.ExtTail = append([]byte{byte(r.Intn(256)), byte(r.Range(1, 255)), byte(n >> 8), byte(n)}, body...)
+			return "ext-tail-overrun"
+		default: // a second, empty-bodied server_name header cut short
+			h.ExtTail = []byte{0, 0, 0}
+			return "ext-tail-sni-header-cut"
+		}
 	case k == 11: // server_name extension with a hand-made (mostly malformed) body, lengths of the outer layers consistent
 		var body []byte
 		nm := []byte(randName(r))
@@ -475,6 +493,11 @@ func genHello(r *hx.Rand) helloJ {
 			h.Exts = append(append(append([]extJ{}, h.Exts[:at]...), genSNI(r, wf || r.Chance(1, 2))), h.Exts[at:]...)
 		}
 	}
+	if wf && r.Chance(1, 25) {
+		// boundary: pad (RFC 7685) so that the record payload is exactly 16383, 16384 (the largest hello the
+		// proxy accepts) or 16385 bytes (one too many: "Invalid TLS record length")
+		padTo(&h, 16384+r.Intn(3)-1)
+	}
 	if !wf {
 		switch r.Intn(8) {
 		case 0:
@@ -499,6 +522,26 @@ func genHello(r *hx.Rand) helloJ {
 		}
 	}
 	return h
+}
+
+// padTo appends a padding extension (type 21) so that the record payload (handshake header + body) has exactly
+// `target` bytes; it leaves the hello alone when that is impossible (already larger, or a padding extension exists).
+func padTo(h *helloJ, target int) {
+	for _, e := range h.Exts {
+		if !e.IsSNI && e.Typ == 21 {
+			return
+		}
+	}
+	h.HasExts = true
+	b, err := encodeHello(h)
+	if err != nil {
+		return
+	}
+	need := target - (len(b) - 5) - 4
+	if need < 0 || need > 65535 {
+		return
+	}
+	h.Exts = append(h.Exts, extJ{Typ: 21, Body: hex.EncodeToString(make([]byte, need))})
 }
 
 func runModel(raw json.RawMessage) (interface{}, error) {
